@@ -75,6 +75,8 @@ class Runner:
         self.proc = None
         self.count = 0
         self.serial = 0
+        self.history = []          # texts of the scenarios executed in the current process (most recent last)
+        self.preamble = []         # replay: scenario texts to execute first in a freshly started process
 
     def _env(self):
         env = dict(os.environ)
@@ -91,6 +93,18 @@ class Runner:
         self.proc = subprocess.Popen([self.bin], stdin=subprocess.PIPE, stdout=subprocess.PIPE, stderr=self.errf,
                                      env=self._env(), cwd=self.wd, start_new_session=True)
         self.count = 0
+        self.history = []
+        for k, text in enumerate(self.preamble):
+            # state carried over from earlier scenarios of the same process (replay of a batch)
+            sp = os.path.join(self.wd, "pre%d.txt" % k); op = os.path.join(self.wd, "pre%d.out" % k)
+            with open(sp, "w") as f:
+                f.write(text)
+            try:
+                self.proc.stdin.write(("run %s %s\n" % (sp, op)).encode()); self.proc.stdin.flush()
+                _readline_timeout(self.proc, 120.0)
+            except Exception:
+                pass
+            self.history.append(text)
 
     def stop(self):
         if self.proc is not None:
@@ -125,6 +139,9 @@ class Runner:
         opath = os.path.join(self.wd, "o%d.txt" % self.serial)
         with open(spath, "w") as f:
             f.write(sc.text())
+        self.history.append(sc.text())
+        if len(self.history) > 260:      # a process is restarted after 200 scenarios, so this keeps everything it has seen
+            del self.history[0]
         died = None
         err_before = os.path.getsize(self.errpath) if os.path.exists(self.errpath) else 0
         try:
@@ -285,7 +302,13 @@ class Ctx:
         k = (flavour, key)
         if k not in self.runners:
             self.runners[k] = Runner(flavour, self.wd, extra_env=extra_env, threads=threads)
+            pre = getattr(self, "preamble", None) or {}
+            self.runners[k].preamble = list(pre.get("%s|%s" % k, []))
         return self.runners[k]
+
+    def begin_case(self):
+        """remember what each runner process has executed before this case (for batch replay of state leaks)"""
+        self.case_history = {"%s|%s" % k: list(r.history) for k, r in self.runners.items() if r.proc is not None and r.proc.poll() is None}
 
     def run(self, flavour, sc, timeout=120.0, key=None, extra_env=None, fresh=None):
         # replay mode (self.fresh): every runner process is started afresh for the case and then kept for all scenarios of
@@ -325,6 +348,7 @@ def _shard_main(prop_name, tier, seed, shard, nshards, nexamples, outpath, budge
             if case_hash(case) == state["best_hash"]:
                 raise AssertionError("property failed")
             return
+        ctx.begin_case()
         res = prop.execute(case, ctx)
         if res.status == "discard":
             st["discarded"] += 1
@@ -346,6 +370,7 @@ def _shard_main(prop_name, tier, seed, shard, nshards, nexamples, outpath, budge
             if state["last_fail"] is None:
                 state["fail_t0"] = time.time()
             state["last_fail"] = (case, res.detail, res.signature)
+            state["last_preamble"] = getattr(ctx, "case_history", {})
             state["best_hash"] = h
             raise AssertionError("property failed")
 
@@ -359,13 +384,13 @@ def _shard_main(prop_name, tier, seed, shard, nshards, nexamples, outpath, budge
         test()
     except AssertionError:
         case, detail, sig = state["last_fail"]
-        st["failure"] = {"case": case, "detail": detail, "signature": sig}
+        st["failure"] = {"case": case, "detail": detail, "signature": sig, "preamble": state.get("last_preamble", {})}
     except EngineError as e:
         st["engine_error"] = "EngineError: %s" % e
     except hypothesis.errors.Flaky as e:
         if state["last_fail"] is not None:
             case, detail, sig = state["last_fail"]
-            st["failure"] = {"case": case, "detail": detail, "signature": sig, "flaky": True}
+            st["failure"] = {"case": case, "detail": detail, "signature": sig, "flaky": True, "preamble": state.get("last_preamble", {})}
         else:
             st["engine_error"] = "Flaky: %s" % e
     except hypothesis.errors.Unsatisfiable as e:
@@ -373,7 +398,7 @@ def _shard_main(prop_name, tier, seed, shard, nshards, nexamples, outpath, budge
     except BaseException as e:  # noqa
         if state["last_fail"] is not None and isinstance(e, Exception):
             case, detail, sig = state["last_fail"]
-            st["failure"] = {"case": case, "detail": detail, "signature": sig}
+            st["failure"] = {"case": case, "detail": detail, "signature": sig, "preamble": state.get("last_preamble", {})}
         else:
             st["engine_error"] = "".join(traceback.format_exception(type(e), e, e.__traceback__))[-4000:]
     finally:
@@ -399,8 +424,9 @@ def load_known(prop_id):
 # ------------------------------------------------------------------------------------------------
 # campaign
 # ------------------------------------------------------------------------------------------------
-def replay_case(prop_name, case, tier="quick", times=1):
-    """execute a case outside Hypothesis in fresh runner processes; returns list of Result"""
+def replay_case(prop_name, case, tier="quick", times=1, preamble=None):
+    """execute a case outside Hypothesis in fresh runner processes; returns list of Result.  With a preamble (scenario texts per
+    runner) those scenarios are executed first in the fresh process: replay of a batch, for state that leaks between scenarios."""
     import importlib
     sys.path.insert(0, HERE)
     prop = importlib.import_module("props." + prop_name.lower())
@@ -408,6 +434,7 @@ def replay_case(prop_name, case, tier="quick", times=1):
     for _ in range(times):
         ctx = Ctx(tier, 0, 0)
         ctx.fresh = True
+        ctx.preamble = preamble or {}
         try:
             out.append(prop.execute(case, ctx))
         finally:
@@ -547,7 +574,21 @@ def campaign(prop_id, tier, seed):
                 violations += 1
                 viol_lines.append("VIOLATION property=%s replay=%s" % (prop_id, path))
         else:
-            unreproduced.append({"case": fl["case"], "detail": fl.get("detail"), "replay_failures": nfail})
+            pre = fl.get("preamble") or {}
+            nb = 0
+            if pre and any(pre.values()):
+                rb = replay_case(prop_id, fl["case"], tier, times=3, preamble=pre)
+                nb = sum(1 for r in rb if r.status == "fail")
+            if nb == 3:
+                # the failure needs the scenarios that ran before it in the same process: the batch is the replay unit
+                key = sig or json.dumps(fl["case"], sort_keys=True)[:200]
+                path = write_replay(prop_id, fl, extra={"preamble": pre, "note": "reproduces only after the listed scenarios ran in the same process (state leaking between scenarios)"})
+                if key not in seen_sig:
+                    seen_sig.add(key)
+                    violations += 1
+                    viol_lines.append("VIOLATION property=%s replay=%s" % (prop_id, path))
+            else:
+                unreproduced.append({"case": fl["case"], "detail": fl.get("detail"), "replay_failures": nfail, "batch_replay_failures": nb})
 
     required = getattr(prop, "REQUIRED_CLASSES", {}).get(tier, [])
     missing = [c for c in required if classes.get(c, 0) == 0]
